@@ -6,10 +6,15 @@ import json
 from .. import rev_corr, rev_impl
 
 THEOREMS = {
-    "C01": [],
-    "C02": [],
+    "C01": ["C01.plan", "C01.plan_of_needs", "C01.sort_total", "C01.norm_closure",
+            "Lemmas.Rev.topoLoopG_ok", "Lemmas.Rev.topoSort_ok", "Lemmas.Rev.mem_closureOf_iff",
+            "Lemmas.Rev.loaded_of_load", "Lemmas.Rev.upgradeNeeds_spec"],
+    "C02": ["C02.plan", "C02.plan_of_set", "C02.target_safe", "C02.reach_inv", "C02.mem_downgradeSet",
+            "Lemmas.Rev.topoSort_ok", "Lemmas.Rev.loaded_of_load"],
     "C03": [],
     "C05": [],
+    "C15": [],
+    "C16": [],
 }
 PARTIAL = {}
 RULE = (
